@@ -5,5 +5,5 @@ func init() {
 		Assumptions: assume(
 			"the reference model (props/c12/model_test.go) encodes the statement; GetEnvFromPath walks the parent chain for the first element only and resolves later elements in the module's own table",
 			"where the statement is silent both outcomes are admitted: first path element whose nearest binding is not a module (error or the module further out); Set/DeleteGlobal when an external lookup nearer than the table binding knows the name (act on the table binding or fail/do nothing); Addr of a nil binding",
-			"a scope's external lookup is part of the scope (kept by Copy/DeepCopy, served to descendants); external lookups are immutable, know no dotted names and hold no scopes; reflect.Values handed to DefineValue/SetValue are always valid")})
+			"a scope's external lookup is part of the scope (kept by Copy/DeepCopy, served to descendants); external lookups are immutable, know no dotted names and hold no scopes; any Go type that implements env.ExternalLookup is a valid lookup (pointer, map, struct value, func), also one that Go cannot compare with ==; reflect.Values handed to DefineValue/SetValue are always valid")})
 }
